@@ -261,6 +261,9 @@ impl Prop for C04 {
         // decryption whose output cannot be delivered (full device, reader gone): an error on the write side is never reported as success
         v.extend(crate::props::c10::C10.cases(tier, seed ^ 0x04).into_iter().filter(|c| get(c, "op") == "cli-devfull" && get(c, "cmd").ends_with("decrypt")));
         // an authentic file followed by one more byte, with the probe for the end of the stream interrupted / failing at every read: nothing may be reported as a success
-        v.extend(crate::props::c10::C10.cases(tier, seed ^ 0x04).into_iter().filter(|c| get(c, "ext") == "1")); v }
-    fn run(&self, c: &Case, m: &mut Model) -> Outcome { if get(c, "op") == "cli-devfull" || get(c, "ext") == "1" { crate::props::c10::C10.run(c, m) } else if get(c, "kind") == "cli" { run_c04_cli(c, m) } else { run_tamper(c, m, true) } }
+        v.extend(crate::props::c10::C10.cases(tier, seed ^ 0x04).into_iter().filter(|c| get(c, "ext") == "1"));
+        // the destination fails (every error kind, would-block and timed-out among them, after none or part of a chunk was taken, or at the flush): the error is final —
+        // nothing further is written, what was written is a prefix of the authentic plaintext, no success is reported
+        v.extend(crate::props::c10::C10.cases(tier, seed ^ 0x14).into_iter().filter(|c| (get(c, "side") == "write" || get(c, "side") == "flush") && get(c, "kind") == "eo" && (get(c, "op") == "dec" || get(c, "op").ends_with("decrypt")))); v }
+    fn run(&self, c: &Case, m: &mut Model) -> Outcome { if get(c, "op") == "cli-devfull" || get(c, "ext") == "1" || !get(c, "side").is_empty() { crate::props::c10::C10.run(c, m) } else if get(c, "kind") == "cli" { run_c04_cli(c, m) } else { run_tamper(c, m, true) } }
 }
